@@ -1,7 +1,7 @@
 """C20 — tags and subsystems compare, hash and parse by protocol name (DESIGN.md §4/C20)."""
 from .. import charset, tables
 from ..callgraph import norm
-from ..common import callee_names, body_by_name
+from ..common import callee_names, body_by_name, family
 from ..facts import callee, const_str, op_const, op_local, op_place
 from ..flow import Flow, identity_through
 from .C12 import parser_key_alphabet, tag_valid_alphabet
@@ -254,9 +254,26 @@ def run(rep, progs, tier):
         charset_rule(rep, prog, cfg)
 
 
-def fallback_verbatim(rep, rule, inst, body, adt_suffix, catch_all, param):
+def fallback_verbatim(rep, rule, inst, body, adt_suffix, catch_all, param, prog=None):
     """The catch-all variant is built from the input string through identity-like calls only."""
     aggs = [(v, bb, i) for v, bb, i in tables.variant_aggs(body, body.reachable(), adt_suffix) if v == catch_all]
+    if not aggs and prog is not None:
+        # `known.unwrap_or_else(|| Enum::Other(raw.into()))`: the construction sits in a closure capturing the input
+        for bbc, ic, stc in body.stmts():
+            if stc["k"] == "assign" and stc["rv"]["k"] == "agg" and stc["rv"].get("agg") == "closure":
+                cb = prog.bodies.get(stc["rv"]["def"])
+                if cb is None or not [1 for v, _, _ in tables.variant_aggs(cb, cb.reachable(), adt_suffix) if v == catch_all]:
+                    continue
+                fl0 = Flow(body)
+                caps = [op_local(o) for o in stc["rv"]["ops"]]
+                lv0, _ = fl0.sources([l for l in caps if l is not None], through_call=identity_through, follow_mut=False)
+                only_input = bool(caps) and ("param", param) in lv0 and not [x for x in lv0 if x[0] in ("const", "call") and
+                                                                         (x[0] == "const" or identity_through(body.blocks[x[1]]["t"]) is None)]
+                if not rep.check(only_input, rule, inst + "/fallback captures", body.loc(stc["span"]),
+                                 "the closure building %s::%s captures something else than the unchanged input (sources: %s)"
+                                 % (adt_suffix, catch_all, sorted(map(str, lv0)))):
+                    return
+                return fallback_verbatim(rep, rule, inst, cb, adt_suffix, catch_all, 1, None)
     if len(aggs) != 1:
         rep.fail(rule, inst + "/fallback", body.loc(body.span),
                  "expected exactly one construction of %s::%s, found %d" % (adt_suffix, catch_all, len(aggs)))
@@ -293,6 +310,15 @@ def tag_rules(rep, prog, cfg):
         rep.check(v in table, rule, "%s/as_str covers %s" % (cfg, v), a.loc(a.span),
                   "Tag::%s has no protocol name in as_str" % v, detail={"name": table.get(v)})
     ptab, bad = parse_table(t, "tag::Tag")
+    fb_body = t
+    if not ptab:
+        lt = local_array_table(prog, t, "tag::Tag")
+        if lt:
+            ptab, bad = lt, []
+            # the catch-all is then built in the closure of `unwrap_or_else(|| Other(raw.into()))`
+            for fb2 in family(prog, t):
+                if any(v == "Other" for v, _, _ in tables.variant_aggs(fb2, fb2.reachable(), "tag::Tag")):
+                    fb_body = fb2
     rep.check(not bad, rule, cfg + "/try_from arms", t.loc(t.span), "comparisons without a unique variant: %s" % bad)
     by_fold = {}
     for lit, ci, v in ptab:
@@ -328,7 +354,7 @@ def tag_rules(rep, prog, cfg):
     tr = tables.transformed_compares(t)
     rep.check(not tr, rule, cfg + "/try_from compares the received name", t.loc(t.span),
               "the tag name is transformed before it is matched: %s" % sorted({x for v in tr.values() for x in v}))
-    fallback_verbatim(rep, rule, cfg + "/try_from", t, "tag::Tag", "Other", 1)
+    fallback_verbatim(rep, rule, cfg + "/try_from", t, "tag::Tag", "Other", 1, prog)
     rep.sample({"tag_as_str": table})
 
 
@@ -345,6 +371,10 @@ def tag_key_problems(prog):
         return None
     named = [v for v in sw["variants"] if v != "Other"]
     ptab, bad = parse_table(t, "tag::Tag")
+    if not ptab:
+        lt = local_array_table(prog, t, "tag::Tag")
+        if lt:
+            ptab, bad = lt, []
     out = []
     if bad:
         out.append((t.loc(t.span), "Tag::try_from has comparisons without a unique variant: %s" % bad))
@@ -366,6 +396,45 @@ def tag_key_problems(prog):
         out.append((a.loc(a.span), "several Tag variants share the protocol name %s: Tag compares and hashes by that name, so their values collapse "
                     "into one map entry" % dup))
     return out, len(named)
+
+
+def local_array_table(prog, body, adt_suffix):
+    """Data-driven table written in the function itself: `[("name", Enum::Variant), ..].into_iter().find(|(p, _)|
+    raw.eq_ignore_ascii_case(p)).map(|(_, v)| v)`.  Rows [(literal, ci, variant)] or None; the lookup closure must compare a row's
+    name with the received value by exactly one (case-insensitive or exact) equality."""
+    variant_of = {}
+    rows = []
+    for _, _, st in body.stmts():
+        if st["k"] == "assign" and st["rv"]["k"] == "agg" and st["rv"].get("agg") == "adt" and str(st["rv"].get("adt_name", "")).endswith(adt_suffix) \
+                and not st["rv"]["ops"]:
+            variant_of[st["place"]["l"]] = st["rv"].get("variant")
+    for _, _, st in body.stmts():
+        if st["k"] == "assign" and st["rv"]["k"] == "agg" and st["rv"].get("agg") == "tuple" and len(st["rv"]["ops"]) == 2:
+            lit = tables.arg_str(body, st["rv"]["ops"][0])
+            v = variant_of.get(op_local(st["rv"]["ops"][1]))
+            if lit is not None and v is not None:
+                rows.append((lit, v))
+    if len(rows) < 3:
+        return None
+    finds = [(bb, t) for bb, t in body.calls() if any(n.endswith(("Iterator::find", "Iterator::position")) for n in callee_names(t))]
+    ci = None
+    for bb, t in finds:
+        for a in t["args"]:
+            l = op_local(a)
+            pb = None
+            if l is not None:
+                for _, _, st in body.stmts():
+                    if st["k"] == "assign" and st["place"]["l"] == l and st["rv"]["k"] == "agg" and st["rv"].get("agg") == "closure":
+                        pb = prog.bodies.get(st["rv"]["def"])
+            if pb is not None:
+                cmps = [callee_names(t2) for _, t2 in pb.calls()]
+                eqs = [ns for ns in cmps if any(n.endswith(("PartialEq::eq", "::eq", "::eq_ignore_ascii_case")) for n in ns)]
+                other = [ns for ns in cmps if ns not in eqs and not any(n.endswith(("::deref", "::as_ref", "::as_str", "::borrow")) for n in ns)]
+                if len(eqs) == 1 and not other:
+                    ci = any(n.endswith("eq_ignore_ascii_case") for n in eqs[0])
+    if ci is None:
+        return None
+    return [(lit, ci, v) for lit, v in rows]
 
 
 def static_name_table(prog, adt_suffix):
